@@ -1,50 +1,1421 @@
-//! probe version
+//! C07 — words added to the user / file dictionary are accepted from then on and never lost.
+//! Correspondence with coq/Model/DictIO.v (extracted) on: load_dict of arbitrary file contents (L), file_dict_name (N),
+//! histories on the real language server incl. restarts and REAL crash points (H), harper_wasm::Linter (W).
+//! Search: the property text evaluated on the implementation (see `oracle_*`).
 #[path = "../lsclient.rs"]
 mod lsclient;
+use harper_core::linting::{LintGroup, Linter};
+use harper_core::parsers::{Markdown, PlainEnglish};
+use harper_core::{Dialect, Dictionary, Document, FstDictionary, MutableDictionary, WordId, WordMetadata};
+use hv::common::*;
 use lsclient::*;
+use lsx::dictionary_io::{file_dict_name, load_dict, save_dict};
+use lsx::tower_lsp::lsp_types::Url;
 use serde_json::{json, Value};
+use std::collections::{BTreeMap, BTreeSet, HashMap};
+use std::path::{Path, PathBuf};
+use std::sync::Arc;
+
+// ------------------------------------------------------------------------------------------------
+//  encoding of cases for the model driver
+// ------------------------------------------------------------------------------------------------
+fn wcps(s: &str) -> String {
+    let c: Vec<String> = s.chars().map(|c| (c as u32).to_string()).collect();
+    format!(". {}", c.join(" ")).trim().to_string()
+}
+fn cps_str(s: &str) -> String {
+    s.chars().map(|c| (c as u32).to_string()).collect::<Vec<_>>().join(" ")
+}
+fn words_field(ws: &[String]) -> String {
+    ws.iter().map(|w| wcps(w)).collect::<Vec<_>>().join(" , ")
+}
+/// sorted as the driver sorts: lexicographic on code points
+fn show_words(ws: &[String]) -> String {
+    if ws.is_empty() {
+        return "-".into();
+    }
+    let mut v: Vec<Vec<u32>> = ws.iter().map(|w| w.chars().map(|c| c as u32).collect()).collect();
+    v.sort();
+    v.iter()
+        .map(|w| format!(". {}", w.iter().map(|c| c.to_string()).collect::<Vec<_>>().join(" ")).trim().to_string())
+        .collect::<Vec<_>>()
+        .join(",")
+}
+fn show_flags(f: &[bool]) -> String {
+    if f.is_empty() {
+        "-".into()
+    } else {
+        f.iter().map(|b| if *b { '1' } else { '0' }).collect()
+    }
+}
+/// the Unicode table of a case: "c is_lowercase to_lowercase.."
+fn ctable(chars: &BTreeSet<char>) -> String {
+    chars
+        .iter()
+        .map(|c| {
+            let l: Vec<String> = c.to_lowercase().map(|x| (x as u32).to_string()).collect();
+            format!("{} {} {}", *c as u32, c.is_lowercase() as u8, l.join(" "))
+        })
+        .collect::<Vec<_>>()
+        .join(",")
+}
+fn to_lower_as_written(w: &[char]) -> Vec<char> {
+    if w.iter().all(|c| c.is_lowercase()) {
+        w.to_vec()
+    } else {
+        w.iter().flat_map(|c| c.to_lowercase()).collect()
+    }
+}
+fn norm_char(c: char) -> char {
+    match c {
+        '’' | '‘' | '＇' => '\'',
+        _ => c,
+    }
+}
+/// the model's word id, computed on the Rust side only for monitors and for classifying failures
+fn model_id(w: &str) -> String {
+    let n: Vec<char> = w.chars().map(norm_char).collect();
+    to_lower_as_written(&n).into_iter().collect()
+}
+fn real_id(w: &str) -> WordId {
+    WordId::from_word_str(w)
+}
+
+/// curated entries (canonical spelling, dialect ok) relevant to the given words
+fn curated_field(words: &BTreeSet<String>) -> String {
+    let cur = FstDictionary::curated();
+    let mut out: BTreeMap<String, bool> = BTreeMap::new();
+    for w in words {
+        let ch: Vec<char> = w.chars().collect();
+        for q in [ch.clone(), to_lower_as_written(&ch)] {
+            if let Some(canon) = cur.get_correct_capitalization_of(&q) {
+                let dok = cur.get_word_metadata(&q).map(|m| m.dialect.is_none_or(|d| d == Dialect::American)).unwrap_or(true);
+                out.insert(canon.iter().collect(), dok);
+            }
+        }
+    }
+    out.iter().map(|(c, d)| format!("{} {}", *d as u8, cps_str(c))).collect::<Vec<_>>().join(",")
+}
+
+// ------------------------------------------------------------------------------------------------
+//  context
+// ------------------------------------------------------------------------------------------------
+struct Cx {
+    rt: lsx::tokio::runtime::Runtime,
+    base: PathBuf,
+    n: u64,
+    baseline: LintGroup,
+    /// model id -> real id seen (monitor: the id model and the real hash agree on equality)
+    ids: HashMap<String, WordId>,
+    rids: HashMap<WordId, String>,
+    id_mismatch: u64,
+    /// file_dict_name -> path components that produced it
+    names: HashMap<String, Vec<String>>,
+    crash_classes: BTreeMap<String, u64>,
+    thorough: bool,
+}
+
+impl Cx {
+    fn new(args: &Args) -> Cx {
+        let base = PathBuf::from(format!("/tmp/w-c07-{}-{}", std::process::id(), args.seed));
+        let _ = std::fs::remove_dir_all(&base);
+        std::fs::create_dir_all(&base).unwrap();
+        let mut baseline = LintGroup::new_curated(FstDictionary::curated(), Dialect::American);
+        baseline.config.fill_with_curated();
+        Cx {
+            rt: runtime(),
+            base,
+            n: 0,
+            baseline,
+            ids: HashMap::new(),
+            rids: HashMap::new(),
+            id_mismatch: 0,
+            names: HashMap::new(),
+            crash_classes: BTreeMap::new(),
+            thorough: args.thorough(),
+        }
+    }
+    fn fresh_dir(&mut self) -> PathBuf {
+        self.n += 1;
+        let d = self.base.join(format!("h{}", self.n));
+        std::fs::create_dir_all(&d).unwrap();
+        d
+    }
+    fn note_id(&mut self, w: &str) {
+        let m = model_id(w);
+        let r = real_id(w);
+        if let Some(r0) = self.ids.get(&m) {
+            if *r0 != r {
+                self.id_mismatch += 1;
+            }
+        } else {
+            self.ids.insert(m.clone(), r);
+        }
+        if let Some(m0) = self.rids.get(&r) {
+            if *m0 != m {
+                self.id_mismatch += 1;
+            }
+        } else {
+            self.rids.insert(r, m);
+        }
+    }
+}
+
+// ------------------------------------------------------------------------------------------------
+//  L: load_dict on an arbitrary text file;  save/load round trip on the implementation
+// ------------------------------------------------------------------------------------------------
+fn words_of(d: &MutableDictionary) -> Vec<String> {
+    d.words_iter().map(|w| w.iter().collect::<String>()).collect()
+}
+/// what a word with line breaks turns into when the file is read back
+fn pieces(w: &str) -> Vec<String> {
+    w.split('\n').map(|l| l.strip_suffix('\r').unwrap_or(l).to_string()).collect()
+}
+fn line_safe(w: &str) -> bool {
+    !w.contains('\n') && !w.ends_with('\r')
+}
+
+fn run_load(cx: &mut Cx, rep: &mut Report, content: &str, origin: &str) {
+    rep.eval();
+    let dir = cx.fresh_dir();
+    let p = dir.join("dict.txt");
+    std::fs::write(&p, content).unwrap();
+    let inp = json!({"kind": "load", "content": content, "origin": origin});
+    let loaded = cx.rt.block_on(load_dict(&p));
+    let chars: BTreeSet<char> = content.chars().collect();
+    let case = format!("L {} | {}", ctable(&chars), cps_str(content));
+    match loaded {
+        Err(e) => {
+            rep.case(&case, "E");
+            rep.fail("load-error", format!("load_dict failed on a valid UTF-8 file: {e}"), inp);
+        }
+        Ok(d) => {
+            let ws = words_of(&d);
+            for w in &ws {
+                cx.note_id(w);
+            }
+            rep.case(&case, &show_words(&ws));
+            rep.nontrivial(&content);
+            rep.count(&format!("load:{}_words", ws.len().min(6)));
+            // "a dictionary file on disk": saving what was loaded and loading it again gives the same words
+            if ws.iter().all(|w| line_safe(w)) {
+                let p2 = dir.join("sub/dir/again.txt");
+                let r = cx.rt.block_on(async {
+                    save_dict(&p2, d.clone()).await?;
+                    load_dict(&p2).await
+                });
+                match r {
+                    Ok(d2) => {
+                        let mut a = ws.clone();
+                        let mut b = words_of(&d2);
+                        a.sort();
+                        b.sort();
+                        if a != b {
+                            rep.fail("save-load", format!("load(save(D)) != D: {:?} vs {:?}", a, b), inp);
+                        }
+                    }
+                    Err(e) => rep.fail("save-load", format!("save/load failed: {e}"), inp),
+                }
+            } else {
+                rep.count("load:word_ending_in_CR");
+            }
+        }
+    }
+    let _ = std::fs::remove_dir_all(&dir);
+}
+
+// ------------------------------------------------------------------------------------------------
+//  N: file_dict_name
+// ------------------------------------------------------------------------------------------------
+fn comps(p: &Path) -> Vec<String> {
+    p.components().filter(|c| !matches!(c, std::path::Component::RootDir)).map(|c| c.as_os_str().to_string_lossy().to_string()).collect()
+}
+fn run_name(cx: &mut Cx, rep: &mut Report, path: &str, origin: &str) {
+    let Ok(url) = Url::from_file_path(path) else {
+        rep.count("name:not_a_file_url");
+        return;
+    };
+    let Ok(decoded) = url.to_file_path() else {
+        rep.count("name:no_file_path");
+        return;
+    };
+    let Some(dec) = decoded.to_str().map(|s| s.to_string()) else { return };
+    rep.eval();
+    if dec != path {
+        rep.count("name:url_roundtrip_normalised_the_path");
+    }
+    let inp = json!({"kind": "name", "path": path, "origin": origin});
+    match file_dict_name(&url) {
+        Err(e) => {
+            rep.case(&format!("N {}", cps_str(&dec)), "E");
+            rep.fail("name-error", format!("file_dict_name failed: {e}"), inp);
+        }
+        Ok(n) => {
+            let n = n.to_string_lossy().to_string();
+            rep.case(&format!("N {}", cps_str(&dec)), format!("= {}", cps_str(&n)).trim());
+            rep.nontrivial(&dec);
+            let c = comps(&decoded);
+            rep.count(if dec.contains('%') { "name:with_percent" } else { "name:plain" });
+            if let Some(c0) = cx.names.get(&n) {
+                if *c0 != c {
+                    rep.fail(
+                        "file-dict-name-collision",
+                        format!("two different files share the dictionary file {:?}: /{} and /{}", n, c0.join("/"), c.join("/")),
+                        json!({"kind": "names", "paths": [format!("/{}", c0.join("/")), path], "origin": origin}),
+                    );
+                }
+            } else {
+                cx.names.insert(n, c);
+            }
+        }
+    }
+}
+
+// ------------------------------------------------------------------------------------------------
+//  H: histories on the language server
+// ------------------------------------------------------------------------------------------------
+#[derive(Clone, Debug, PartialEq)]
+enum Scope {
+    User,
+    File(usize),
+}
+#[derive(Clone, Debug)]
+enum Op {
+    Add(Scope, String),
+    /// write the dictionary file with the real save_dict (stands for a sequence of adds)
+    Seed(Scope, Vec<String>),
+    Lint(usize, String),
+    Restart,
+    /// the add runs in a child process that is killed on entering the `when`-th `syscall`
+    Crash(Scope, String, String, u32),
+}
+#[derive(Clone, Debug)]
+struct Hist {
+    lang: String,
+    /// "f:<relative path>" or "u:<name>"
+    urls: Vec<String>,
+    ops: Vec<Op>,
+}
+
+fn scope_json(s: &Scope) -> Value {
+    match s {
+        Scope::User => json!("user"),
+        Scope::File(i) => json!(i),
+    }
+}
+fn scope_from(v: &Value) -> Scope {
+    match v.as_u64() {
+        Some(i) => Scope::File(i as usize),
+        None => Scope::User,
+    }
+}
+fn hist_json(h: &Hist, origin: &str) -> Value {
+    let ops: Vec<Value> = h
+        .ops
+        .iter()
+        .map(|o| match o {
+            Op::Add(s, w) => json!(["add", scope_json(s), w]),
+            Op::Seed(s, ws) => json!(["seed", scope_json(s), ws]),
+            Op::Lint(u, t) => json!(["lint", u, t]),
+            Op::Restart => json!(["restart"]),
+            Op::Crash(s, w, sc, n) => json!(["crash", scope_json(s), w, sc, n]),
+        })
+        .collect();
+    json!({"kind": "ls", "lang": h.lang, "urls": h.urls, "ops": ops, "origin": origin})
+}
+fn hist_from(v: &Value) -> Option<Hist> {
+    let urls = v["urls"].as_array()?.iter().filter_map(|u| u.as_str().map(|s| s.to_string())).collect();
+    let mut ops = vec![];
+    for o in v["ops"].as_array()? {
+        let a = o.as_array()?;
+        match a.first()?.as_str()? {
+            "add" => ops.push(Op::Add(scope_from(&a[1]), a[2].as_str()?.to_string())),
+            "seed" => ops.push(Op::Seed(scope_from(&a[1]), a[2].as_array()?.iter().filter_map(|x| x.as_str().map(|s| s.to_string())).collect())),
+            "lint" => ops.push(Op::Lint(a[1].as_u64()? as usize, a[2].as_str()?.to_string())),
+            "restart" => ops.push(Op::Restart),
+            "crash" => ops.push(Op::Crash(scope_from(&a[1]), a[2].as_str()?.to_string(), a[3].as_str()?.to_string(), a[4].as_u64()? as u32)),
+            _ => return None,
+        }
+    }
+    Some(Hist { lang: v["lang"].as_str().unwrap_or("plaintext").to_string(), urls, ops })
+}
+
+struct DocUrl {
+    uri: String,
+    /// decoded absolute path for file: urls
+    path: Option<String>,
+    /// identity of the file: its normalised path
+    file_key: String,
+}
+
+fn is_spelling_msg(m: &str) -> bool {
+    m.starts_with("Did you mean “") || m.starts_with("Did you mean to spell “")
+}
+
+/// (line, utf16 column) of a char index; lines are separated by LF only (pos_conv's convention)
+fn pos_of(src: &[char], idx: usize) -> (u64, u64) {
+    let mut line = 0u64;
+    let mut col = 0u64;
+    for c in &src[..idx.min(src.len())] {
+        if *c == '\n' {
+            line += 1;
+            col = 0;
+        } else {
+            col += c.len_utf16() as u64;
+        }
+    }
+    (line, col)
+}
+
+struct Tokens {
+    words: Vec<String>,
+    ranges: Vec<(u64, u64, u64, u64)>,
+    spans: Vec<(usize, usize)>,
+}
+fn word_tokens(lang: &str, text: &str) -> Tokens {
+    let dict = FstDictionary::curated();
+    let doc = if lang == "markdown" { Document::new(text, &Markdown::default(), &dict) } else { Document::new(text, &PlainEnglish, &dict) };
+    let src: Vec<char> = text.chars().collect();
+    let mut t = Tokens { words: vec![], ranges: vec![], spans: vec![] };
+    for tok in doc.tokens() {
+        if tok.kind.is_word() {
+            let (a, b) = (tok.span.start, tok.span.end);
+            if a <= b && b <= src.len() {
+                t.words.push(src[a..b].iter().collect());
+                let (l0, c0) = pos_of(&src, a);
+                let (l1, c1) = pos_of(&src, b);
+                t.ranges.push((l0, c0, l1, c1));
+                t.spans.push((a, b));
+            }
+        }
+    }
+    t
+}
+
+type Diag = ((u64, u64, u64, u64), String);
+fn diags_of(v: &Value) -> Vec<Diag> {
+    let mut out = vec![];
+    if let Some(a) = v.as_array() {
+        for d in a {
+            let r = &d["range"];
+            out.push((
+                (
+                    r["start"]["line"].as_u64().unwrap_or(0),
+                    r["start"]["character"].as_u64().unwrap_or(0),
+                    r["end"]["line"].as_u64().unwrap_or(0),
+                    r["end"]["character"].as_u64().unwrap_or(0),
+                ),
+                d["message"].as_str().unwrap_or("").to_string(),
+            ));
+        }
+    }
+    out
+}
+
+/// lints of the text with the curated dictionary only, straight from harper-core: (range, message, is_spelling)
+fn baseline_lints(cx: &mut Cx, lang: &str, text: &str) -> Vec<(Diag, bool)> {
+    let dict = FstDictionary::curated();
+    let doc = if lang == "markdown" { Document::new(text, &Markdown::default(), &dict) } else { Document::new(text, &PlainEnglish, &dict) };
+    let src: Vec<char> = text.chars().collect();
+    let lints = cx.baseline.lint(&doc);
+    lints
+        .into_iter()
+        .map(|l| {
+            let (l0, c0) = pos_of(&src, l.span.start);
+            let (l1, c1) = pos_of(&src, l.span.end);
+            (((l0, c0, l1, c1), l.message.clone()), l.lint_kind.is_spelling())
+        })
+        .collect()
+}
+
+fn read_obs(p: &Path) -> (String, Option<Vec<u8>>) {
+    // -> (model encoding of the observed content, raw bytes)
+    match std::fs::read(p) {
+        Err(_) => ("n".into(), None),
+        Ok(b) => match std::str::from_utf8(&b) {
+            Ok(s) => (format!("c {}", cps_str(s)).trim().to_string(), Some(b)),
+            Err(e) => {
+                let s = std::str::from_utf8(&b[..e.valid_up_to()]).unwrap();
+                (format!("t {}", cps_str(s)).trim().to_string(), Some(b))
+            }
+        },
+    }
+}
+
+fn hexs(s: &str) -> String {
+    s.as_bytes().iter().map(|b| format!("{b:02x}")).collect()
+}
+fn unhex(s: &str) -> String {
+    let b: Vec<u8> = (0..s.len() / 2).map(|i| u8::from_str_radix(&s[2 * i..2 * i + 2], 16).unwrap_or(0)).collect();
+    String::from_utf8_lossy(&b).to_string()
+}
+
+/// child mode: one add-word command on a fresh server, meant to be killed half-way by strace.
+/// The server is set up first; then the child says "R" and waits for a byte on stdin, so that the parent can
+/// attach strace and the injection counters only see the system calls of the command itself.
+fn child_add(a: &[String]) {
+    use std::io::{Read, Write};
+    let rt = runtime();
+    let _g = rt.enter();
+    let st = settings(&a[0], &a[1], &a[2], json!({}));
+    let mut s = Session::new(st);
+    let cmd = if a[3] == "user" { "HarperAddToUserDict" } else { "HarperAddToFileDict" };
+    print!("R");
+    let _ = std::io::stdout().flush();
+    let mut b = [0u8; 1];
+    let _ = std::io::stdin().read(&mut b);
+    s.command(cmd, vec![json!(unhex(&a[5])), json!(a[4])]);
+    std::process::exit(0);
+}
+
+/// the system calls one crash class stands for
+fn syscall_set(class: &str) -> &'static str {
+    match class {
+        "open" | "openat" => "open,openat,creat",
+        "mkdir" => "mkdir,mkdirat",
+        "write" => "write,pwrite64,writev",
+        "close" => "close",
+        "rename" => "rename,renameat,renameat2",
+        "sync" => "fsync,fdatasync",
+        "unlink" => "unlink,unlinkat",
+        _ => "openat",
+    }
+}
+fn tracer_pid(pid: u32) -> u32 {
+    std::fs::read_to_string(format!("/proc/{pid}/status"))
+        .ok()
+        .and_then(|s| s.lines().find(|l| l.starts_with("TracerPid:")).and_then(|l| l[10..].trim().parse().ok()))
+        .unwrap_or(0)
+}
+
+/// Run the add in a child that is killed (SIGKILL) on entering the `when`-th system call of the class, counted
+/// per thread from the moment the command starts.  Some(true) = killed, Some(false) = the command completed
+/// (there is no such system call), None = strace could not be used.
+fn crash_child(user: &str, fd: &str, stats: &str, scope: &str, uri: &str, word: &str, class: &str, when: u32) -> Option<bool> {
+    use std::io::{Read, Write};
+    use std::process::{Command, Stdio};
+    let exe = std::env::current_exe().ok()?;
+    let mut child = Command::new(exe)
+        .args(["child-add", user, fd, stats, scope, uri, &hexs(word)])
+        .stdin(Stdio::piped())
+        .stdout(Stdio::piped())
+        .stderr(Stdio::null())
+        .spawn()
+        .ok()?;
+    let mut b = [0u8; 1];
+    if child.stdout.as_mut()?.read_exact(&mut b).is_err() {
+        let _ = child.kill();
+        let _ = child.wait();
+        return None;
+    }
+    let pid = child.id();
+    let set = syscall_set(class);
+    let tracer = Command::new("strace")
+        .args(["-f", "-qq", "-o", "/dev/null", "-p", &pid.to_string(), "-e", &format!("trace={set}"), "-e", &format!("inject={set}:signal=SIGKILL:when={when}")])
+        .stdin(Stdio::null())
+        .stdout(Stdio::null())
+        .stderr(Stdio::null())
+        .spawn();
+    let Ok(mut tracer) = tracer else {
+        let _ = child.kill();
+        let _ = child.wait();
+        return None;
+    };
+    let mut attached = false;
+    for _ in 0..1000 {
+        if tracer_pid(pid) != 0 {
+            attached = true;
+            break;
+        }
+        std::thread::sleep(std::time::Duration::from_millis(2));
+    }
+    if !attached {
+        let _ = child.kill();
+        let _ = child.wait();
+        let _ = tracer.kill();
+        let _ = tracer.wait();
+        return None;
+    }
+    // every thread of the child is attached a moment after the first one
+    std::thread::sleep(std::time::Duration::from_millis(30));
+    if let Some(mut si) = child.stdin.take() {
+        let _ = si.write_all(b"g");
+    }
+    let status = child.wait().ok()?;
+    let _ = tracer.wait();
+    Some(!status.success())
+}
+
+struct Expect {
+    /// target key ("user" or the file's normalised path) -> words added so far, in order
+    added: BTreeMap<String, Vec<String>>,
+}
+
+fn run_hist(cx: &mut Cx, rep: &mut Report, h: &Hist, origin: &str) {
+    rep.eval();
+    let dir = cx.fresh_dir();
+    let dirs = dir.to_str().unwrap().to_string();
+    let user = format!("{dirs}/cfg/user.txt");
+    let fd = format!("{dirs}/fd");
+    let stats = format!("{dirs}/stats.txt");
+    let inp = hist_json(h, origin);
+    let _g = cx.rt.enter();
+    let st = settings(&user, &fd, &stats, json!({}));
+    // urls
+    let mut urls: Vec<DocUrl> = vec![];
+    for u in &h.urls {
+        if let Some(rel) = u.strip_prefix("f:") {
+            let p = format!("{dirs}/docs/{rel}");
+            match Url::from_file_path(&p) {
+                Ok(url) => {
+                    let dec = url.to_file_path().ok().and_then(|d| d.to_str().map(|s| s.to_string()));
+                    let key = dec.as_ref().map(|d| comps(Path::new(d)).join("/")).unwrap_or_default();
+                    urls.push(DocUrl { uri: url.to_string(), path: dec, file_key: key });
+                }
+                Err(_) => {
+                    rep.count("hist:bad_url_skipped");
+                    return;
+                }
+            }
+        } else {
+            let name = u.strip_prefix("u:").unwrap_or(u);
+            urls.push(DocUrl { uri: format!("untitled:{name}"), path: None, file_key: format!("untitled:{name}") });
+        }
+    }
+    let key_of = |s: &Scope| -> Option<String> {
+        match s {
+            Scope::User => Some("user".to_string()),
+            Scope::File(i) => urls.get(*i).and_then(|u| u.path.as_ref().map(|_| u.file_key.clone())),
+        }
+    };
+    let dict_path = |s: &Scope| -> Option<PathBuf> {
+        match s {
+            Scope::User => Some(PathBuf::from(&user)),
+            Scope::File(i) => {
+                let u = urls.get(*i)?;
+                u.path.as_ref()?;
+                let url: Url = u.uri.parse().ok()?;
+                Some(Path::new(&fd).join(file_dict_name(&url).ok()?))
+            }
+        }
+    };
+
+    let mut sess = Session::new(st.clone());
+    let mut opened: BTreeSet<usize> = BTreeSet::new();
+    let mut chars: BTreeSet<char> = BTreeSet::new();
+    let mut allwords: BTreeSet<String> = BTreeSet::new();
+    let mut case_ops: Vec<String> = vec![];
+    let mut impl_ops: Vec<String> = vec![];
+    let mut exp = Expect { added: BTreeMap::new() };
+    // (op index, target key, word) in order, for classifying failures
+    let mut add_log: Vec<(usize, String, String)> = vec![];
+    let mut n_lints = 0;
+    let mut n_adds = 0;
+    let mut crashed = false;
+
+    for (oi, op) in h.ops.iter().enumerate() {
+        match op {
+            Op::Add(sc, w) => {
+                let Some(ui) = (match sc { Scope::User => Some(0usize), Scope::File(i) => Some(*i) }) else { continue };
+                if ui >= urls.len() {
+                    continue;
+                }
+                let cmd = if *sc == Scope::User { "HarperAddToUserDict" } else { "HarperAddToFileDict" };
+                let uri = urls[ui].uri.clone();
+                if !sess.command(cmd, vec![json!(w), json!(uri)]) {
+                    rep.fail("stuck", format!("{cmd} did not complete"), inp.clone());
+                    return;
+                }
+                chars.extend(w.chars());
+                allwords.insert(w.clone());
+                cx.note_id(w);
+                n_adds += 1;
+                match sc {
+                    Scope::User => case_ops.push(format!("a : {}", wcps(w))),
+                    Scope::File(i) => case_ops.push(format!("f {} : {}", i, wcps(w))),
+                }
+                impl_ops.push("+".into());
+                if let Some(k) = key_of(sc) {
+                    exp.added.entry(k.clone()).or_default().push(w.clone());
+                    add_log.push((oi, k, w.clone()));
+                } else {
+                    rep.count("hist:add_to_file_dict_of_untitled_document(dropped by the server)");
+                }
+            }
+            Op::Seed(sc, ws) => {
+                let Some(p) = dict_path(sc) else { continue };
+                let mut d = match cx.rt.block_on(load_dict(&p)) {
+                    Ok(d) => d,
+                    Err(_) => MutableDictionary::new(),
+                };
+                for w in ws {
+                    d.append_word_str(w, WordMetadata::default());
+                }
+                if cx.rt.block_on(save_dict(&p, d)).is_err() {
+                    rep.fail("save-error", "save_dict failed while seeding".into(), inp.clone());
+                    return;
+                }
+                for w in ws {
+                    chars.extend(w.chars());
+                    allwords.insert(w.clone());
+                    match sc {
+                        Scope::User => case_ops.push(format!("a : {}", wcps(w))),
+                        Scope::File(i) => case_ops.push(format!("f {} : {}", i, wcps(w))),
+                    }
+                    impl_ops.push("+".into());
+                    if let Some(k) = key_of(sc) {
+                        exp.added.entry(k.clone()).or_default().push(w.clone());
+                        add_log.push((oi, k, w.clone()));
+                    }
+                }
+            }
+            Op::Restart => {
+                sess.request("shutdown", Value::Null);
+                drop(sess);
+                sess = Session::new(st.clone());
+                opened.clear();
+                case_ops.push("r".into());
+                impl_ops.push("r".into());
+            }
+            Op::Lint(ui, text) => {
+                if *ui >= urls.len() {
+                    continue;
+                }
+                let u = &urls[*ui];
+                if let Some(p) = &u.path {
+                    // keep the file on disk in step with the buffer (the add commands re-read it from disk)
+                    if let Some(par) = Path::new(p).parent() {
+                        let _ = std::fs::create_dir_all(par);
+                    }
+                    let _ = std::fs::write(p, text);
+                }
+                let before = sess.published.len();
+                let ok = if opened.insert(*ui) { sess.did_open(&u.uri, &h.lang, text) } else { sess.did_change(&u.uri, text) };
+                if !ok || sess.published.len() == before {
+                    rep.fail("stuck", "no diagnostics published for a checked document".into(), inp.clone());
+                    return;
+                }
+                let (puri, pd) = sess.published.last().unwrap().clone();
+                if puri != u.uri {
+                    rep.monitor("published_for_other_uri", 1);
+                }
+                let ds = diags_of(&pd);
+                let toks = word_tokens(&h.lang, text);
+                let flags: Vec<bool> = toks.ranges.iter().map(|r| ds.iter().any(|(dr, m)| dr == r && is_spelling_msg(m))).collect();
+                let unmatched = ds.iter().filter(|(dr, m)| is_spelling_msg(m) && !toks.ranges.contains(dr)).count();
+                if unmatched > 0 {
+                    rep.monitor("spelling_diagnostic_not_on_a_word_token", unmatched as u64);
+                }
+                for w in &toks.words {
+                    chars.extend(w.chars());
+                    allwords.insert(w.clone());
+                    cx.note_id(w);
+                }
+                case_ops.push(format!("l {} : {}", ui, words_field(&toks.words)));
+                impl_ops.push(show_flags(&flags));
+                n_lints += 1;
+                // ---------------- oracle: the property text on this check ----------------
+                let base = baseline_lints(cx, &h.lang, text);
+                let my_key = u.file_key.clone();
+                let in_scope: Vec<(usize, &String)> = add_log.iter().filter(|(_, k, _)| k == "user" || *k == my_key).map(|(i, _, w)| (*i, w)).collect();
+                let out_scope: Vec<&String> = add_log.iter().filter(|(_, k, _)| !(k == "user" || *k == my_key)).map(|(_, _, w)| w).collect();
+                for (ti, t) in toks.words.iter().enumerate() {
+                    let flagged = flags[ti];
+                    let base_flag = base.iter().any(|((r, _), sp)| *sp && *r == toks.ranges[ti]);
+                    if let Some((ai, _)) = in_scope.iter().find(|(_, w)| *w == t) {
+                        rep.count("oracle:token_is_added_word");
+                        if flagged {
+                            // why? (features of the input only)
+                            let target_of_add = add_log.iter().find(|(i, _, _)| i == ai).map(|(_, k, _)| k.clone()).unwrap_or_default();
+                            let later_variant = add_log.iter().any(|(i, k, w)| i > ai && *k == target_of_add && w != t && real_id(w) == real_id(t));
+                            let cur = FstDictionary::curated();
+                            let tc: Vec<char> = t.chars().collect();
+                            let other_dialect = cur.get_word_metadata(&tc).map(|m| !m.dialect.is_none_or(|d| d == Dialect::American)).unwrap_or(false);
+                            let class = if t.chars().any(|c| norm_char(c) != c) {
+                                "added-word-reported:apostrophe"
+                            } else if later_variant {
+                                "added-word-reported:case-collision"
+                            } else if other_dialect {
+                                "added-word-reported:dialect"
+                            } else {
+                                "added-word-reported"
+                            };
+                            rep.fail(class, format!("{:?} was added (op {ai}) and is reported as misspelt in a later check (op {oi}) of {}", t, h.urls[*ui]), inp.clone());
+                        }
+                    } else if in_scope.iter().any(|(_, w)| real_id(w) == real_id(t)) {
+                        rep.count("oracle:token_is_case_variant_of_added_word(unconstrained)");
+                    } else {
+                        rep.count("oracle:other_token");
+                        if flagged != base_flag {
+                            if out_scope.iter().any(|w| real_id(w) == real_id(t)) {
+                                rep.fail(
+                                    "file-scope-leak",
+                                    format!("{:?} was only added to the dictionary of another file, yet its report in {} changed ({} -> {})", t, h.urls[*ui], base_flag, flagged),
+                                    inp.clone(),
+                                );
+                            } else {
+                                // a piece of an added "word" that contains a line break?
+                                let piece = in_scope.iter().any(|(_, w)| !line_safe(w) && pieces(w).iter().any(|l| real_id(l) == real_id(t)));
+                                let class = if piece { "other-word-changed:newline" } else { "other-word-changed" };
+                                rep.fail(class, format!("report of {:?} (never added) changed: {} -> {}", t, base_flag, flagged), inp.clone());
+                            }
+                        }
+                    }
+                }
+                // all other lints unchanged
+                let mut a: Vec<Diag> = base.iter().filter(|(_, sp)| !*sp).map(|(d, _)| d.clone()).collect();
+                let mut b: Vec<Diag> = ds.iter().filter(|(_, m)| !is_spelling_msg(m)).cloned().collect();
+                a.sort();
+                b.sort();
+                if a != b && add_log.is_empty() {
+                    // nothing was added yet: a difference between harper-ls and harper-core is not C07's business
+                    rep.monitor("ls_diagnostics_differ_from_core_before_any_add", 1);
+                } else if a != b {
+                    let gone: Vec<&Diag> = a.iter().filter(|x| !b.contains(x)).collect();
+                    let new: Vec<&Diag> = b.iter().filter(|x| !a.contains(x)).collect();
+                    // does every changed lint sit on a token that is (a case variant of) an added word in scope?
+                    let on_added = gone.iter().chain(new.iter()).all(|(r, _)| {
+                        toks.ranges.iter().zip(&toks.words).any(|(tr, tw)| {
+                            tr.0 == r.0 && tr.2 == r.2 && tr.0 == tr.2 && r.1 < tr.3 && tr.1 < r.3.max(r.1 + 1) && in_scope.iter().any(|(_, w)| real_id(w) == real_id(tw))
+                        })
+                    });
+                    // ... or within 40 columns of such a token on the same line (token predicates such as
+                    // is_not_plural_nominal answer differently for a word without metadata and a word with default metadata)
+                    let near_added = gone.iter().chain(new.iter()).all(|(r, _)| {
+                        toks.ranges.iter().zip(&toks.words).any(|(tr, tw)| {
+                            tr.0 == r.0 && tr.2 == r.2 && tr.0 == tr.2 && r.1 < tr.3 + 40 && tr.1 < r.3 + 40 && in_scope.iter().any(|(_, w)| real_id(w) == real_id(tw))
+                        })
+                    });
+                    let class = if on_added {
+                        "other-lints-changed:on-added-word"
+                    } else if near_added {
+                        "other-lints-changed:near-added-word"
+                    } else {
+                        "other-lints-changed"
+                    };
+                    rep.fail(class, format!("non-spelling lints differ from the check without added words: disappeared {:?}, appeared {:?}", gone, new), inp.clone());
+                } else {
+                    rep.count("oracle:other_lints_equal");
+                }
+            }
+            Op::Crash(sc, w, syscall, when) => {
+                let Some(p) = dict_path(sc) else { continue };
+                let Some(k) = key_of(sc) else { continue };
+                let ui = match sc { Scope::User => 0usize, Scope::File(i) => *i };
+                if ui >= urls.len() {
+                    continue;
+                }
+                sess.request("shutdown", Value::Null);
+                drop(sess);
+                let scope_s = if *sc == Scope::User { "user" } else { "file" };
+                let killed = crash_child(&user, &fd, &stats, scope_s, &urls[ui].uri, w, syscall, *when);
+                sess = Session::new(st.clone());
+                opened.clear();
+                let Some(killed) = killed else {
+                    rep.monitor("strace_unavailable", 1);
+                    continue;
+                };
+                crashed = true;
+                let (obs, _) = read_obs(&p);
+                chars.extend(w.chars());
+                allwords.insert(w.clone());
+                match sc {
+                    Scope::User => case_ops.push(format!("k a : {} : {}", wcps(w), obs)),
+                    Scope::File(i) => case_ops.push(format!("k f {} : {} : {}", i, wcps(w), obs)),
+                }
+                impl_ops.push("k1".into());
+                // oracle: a crash may lose at most the word being added
+                let before: Vec<String> = exp.added.get(&k).cloned().unwrap_or_default();
+                let now: Vec<String> = match cx.rt.block_on(load_dict(&p)) {
+                    Ok(d) => words_of(&d),
+                    Err(_) => vec![],
+                };
+                let lost: Vec<&String> = before.iter().filter(|b| !now.iter().any(|n| real_id(n) == real_id(b))).collect();
+                let state = if !killed {
+                    "completed"
+                } else if obs == "n" {
+                    "no-file"
+                } else if obs == "c" {
+                    "truncated-empty"
+                } else if now.iter().any(|n| n == w) && lost.is_empty() {
+                    "new"
+                } else if lost.is_empty() {
+                    "old"
+                } else {
+                    "partial"
+                };
+                *cx.crash_classes.entry(format!("{syscall}:{state}")).or_insert(0) += 1;
+                rep.count(&format!("crash:{state}"));
+                if !lost.is_empty() {
+                    rep.fail(
+                        "crash-loses-words",
+                        format!("killed on entering {syscall} #{when} while adding {:?}: the dictionary file was left {state} and {} previously added word(s) are gone, e.g. {:?}", w, lost.len(), lost[0]),
+                        inp.clone(),
+                    );
+                }
+                // the history goes on from what is really on disk
+                exp.added.insert(k.clone(), now.clone());
+                add_log.retain(|(_, kk, _)| *kk != k);
+                for n in &now {
+                    add_log.push((oi, k.clone(), n.clone()));
+                }
+            }
+        }
+    }
+    sess.request("shutdown", Value::Null);
+    drop(sess);
+
+    // ---- reload: the saved files hold exactly the words added so far ----
+    let mut key_paths: BTreeMap<String, PathBuf> = BTreeMap::new();
+    for i in 0..urls.len() {
+        if let (Some(k), Some(p)) = (key_of(&Scope::File(i)), dict_path(&Scope::File(i))) {
+            key_paths.insert(k, p);
+        }
+    }
+    let mut dump: Vec<String> = vec![];
+    let mut reload = |sc: &Scope| -> String {
+        match dict_path(sc) {
+            None => "~".to_string(),
+            Some(p) => match cx.rt.block_on(load_dict(&p)) {
+                Err(_) => "E".to_string(),
+                Ok(d) => {
+                    let ws = words_of(&d);
+                    if let Some(k) = key_of(sc) {
+                        let want: BTreeSet<&String> = exp.added.get(&k).map(|v| v.iter().collect()).unwrap_or_default();
+                        let got: BTreeSet<&String> = ws.iter().collect();
+                        if want != got {
+                            let missing: Vec<&&String> = want.difference(&got).collect();
+                            let extra: Vec<&&String> = got.difference(&want).collect();
+                            let adds = exp.added.get(&k).cloned().unwrap_or_default();
+                            // words added for OTHER files whose dictionary is this very file (name collision)
+                            let colliding: Vec<String> = key_paths.iter().filter(|(kk, pp)| **kk != k && **pp == p).flat_map(|(kk, _)| exp.added.get(kk).cloned().unwrap_or_default()).collect();
+                            let merged: Vec<&String> = adds.iter().chain(colliding.iter()).collect();
+                            let leak = !colliding.is_empty()
+                                && extra.iter().all(|e| colliding.iter().any(|c| c == **e || (!line_safe(c) && pieces(c).iter().any(|l| l == e.as_str()))))
+                                && missing.iter().all(|m| merged.iter().any(|w| *w != **m && real_id(w) == real_id(m)));
+                            let class = if leak {
+                                "file-scope-leak"
+                            } else if adds.iter().any(|w| !line_safe(w)) {
+                                "reload:newline"
+                            } else if missing.iter().all(|m| adds.iter().any(|w| w != **m && real_id(w) == real_id(m))) && extra.is_empty() {
+                                "reload:case-collision"
+                            } else {
+                                "reload"
+                            };
+                            rep.fail(class, format!("dictionary {k} reloads to {:?}; missing {:?}, unexpected {:?}", got, missing, extra), inp.clone());
+                        } else {
+                            rep.count("oracle:reload_equal");
+                        }
+                    }
+                    show_words(&ws)
+                }
+            },
+        }
+    };
+    dump.push(reload(&Scope::User));
+    for i in 0..urls.len() {
+        // several urls may name the same file: the expectation is per file
+        dump.push(reload(&Scope::File(i)));
+    }
+    for u in &urls {
+        if let Some(p) = &u.path {
+            chars.extend(p.chars());
+        } else {
+            chars.extend(u.uri.chars());
+        }
+    }
+    let urls_field = urls
+        .iter()
+        .map(|u| match &u.path {
+            Some(p) => format!("p {}", cps_str(p)),
+            None => format!("u {}", cps_str(&u.uri)),
+        })
+        .collect::<Vec<_>>()
+        .join(" , ");
+    let case = format!("H {} | {} | {} | {}", ctable(&chars), curated_field(&allwords), urls_field, case_ops.join(" ; "));
+    let impl_line = format!("{} # {}", impl_ops.join(";"), dump.join(" # "));
+    rep.case(&case, &impl_line);
+    rep.nontrivial(&format!("{:?}", h));
+    rep.count(&format!("hist:{}_adds", n_adds.min(8)));
+    rep.count(&format!("hist:{}_lints", n_lints.min(8)));
+    if crashed {
+        rep.count("hist:with_crash");
+    }
+    if h.ops.iter().any(|o| matches!(o, Op::Restart)) {
+        rep.count("hist:with_restart");
+    }
+    rep.sample(json!({"history": inp, "impl": impl_line}));
+    let _ = std::fs::remove_dir_all(&dir);
+}
+
+// ------------------------------------------------------------------------------------------------
+//  W: harper_wasm::Linter (native)
+// ------------------------------------------------------------------------------------------------
+#[derive(Clone, Debug)]
+enum WOp {
+    Import(Vec<String>),
+    Lint(String),
+    Export,
+}
+fn wasm_json(ops: &[WOp], origin: &str) -> Value {
+    let o: Vec<Value> = ops
+        .iter()
+        .map(|o| match o {
+            WOp::Import(ws) => json!(["import", ws]),
+            WOp::Lint(t) => json!(["lint", t]),
+            WOp::Export => json!(["export"]),
+        })
+        .collect();
+    json!({"kind": "wasm", "ops": o, "origin": origin})
+}
+fn wasm_from(v: &Value) -> Option<Vec<WOp>> {
+    let mut ops = vec![];
+    for o in v["ops"].as_array()? {
+        let a = o.as_array()?;
+        match a.first()?.as_str()? {
+            "import" => ops.push(WOp::Import(a[1].as_array()?.iter().filter_map(|x| x.as_str().map(|s| s.to_string())).collect())),
+            "lint" => ops.push(WOp::Lint(a[1].as_str()?.to_string())),
+            "export" => ops.push(WOp::Export),
+            _ => return None,
+        }
+    }
+    Some(ops)
+}
+
+fn run_wasm(cx: &mut Cx, rep: &mut Report, ops: &[WOp], origin: &str) {
+    rep.eval();
+    let inp = wasm_json(ops, origin);
+    let mut lt = harper_wasm::Linter::new(harper_wasm::Dialect::American);
+    let mut chars: BTreeSet<char> = BTreeSet::new();
+    let mut allwords: BTreeSet<String> = BTreeSet::new();
+    let mut case_ops = vec![];
+    let mut impl_ops = vec![];
+    let mut imported: Vec<(usize, String)> = vec![]; // (sequence number, word)
+    let mut seq = 0usize;
+    for (oi, op) in ops.iter().enumerate() {
+        match op {
+            WOp::Import(ws) => {
+                lt.import_words(ws.clone());
+                for w in ws {
+                    chars.extend(w.chars());
+                    allwords.insert(w.clone());
+                    cx.note_id(w);
+                    seq += 1;
+                    imported.push((seq, w.clone()));
+                }
+                case_ops.push(format!("i : {}", words_field(ws)));
+                impl_ops.push("+".to_string());
+            }
+            WOp::Export => {
+                let ws = lt.export_words();
+                case_ops.push("e".to_string());
+                impl_ops.push(show_words(&ws));
+                let want: BTreeSet<&String> = imported.iter().map(|(_, w)| w).collect();
+                let got: BTreeSet<&String> = ws.iter().collect();
+                if want != got {
+                    let missing: Vec<&&String> = want.difference(&got).collect();
+                    let extra: Vec<&&String> = got.difference(&want).collect();
+                    let class = if extra.is_empty() && missing.iter().all(|m| imported.iter().any(|(_, w)| w != **m && real_id(w) == real_id(m))) {
+                        "reload:case-collision"
+                    } else {
+                        "reload"
+                    };
+                    rep.fail(class, format!("export_words gives {:?}; missing {:?}, unexpected {:?}", got, missing, extra), inp.clone());
+                } else {
+                    rep.count("oracle:export_equal");
+                }
+            }
+            WOp::Lint(text) => {
+                let toks = word_tokens("plaintext", text);
+                let lints = lt.lint(text.clone(), harper_wasm::Language::Plain);
+                let ls: Vec<((usize, usize), bool, String)> = lints.iter().map(|l| ((l.span().start, l.span().end), l.lint_kind() == "Spelling", l.message())).collect();
+                // remove_overlaps may drop a spelling lint under another lint: such checks say nothing about the dictionary
+                let overlapped = toks.spans.iter().any(|(a, b)| ls.iter().any(|((x, y), sp, _)| !*sp && x < b && a < y));
+                if overlapped {
+                    rep.count("wasm:lint_skipped(other lint overlaps a word)");
+                    continue;
+                }
+                let flags: Vec<bool> = toks.spans.iter().map(|s| ls.iter().any(|(x, sp, _)| *sp && x == s)).collect();
+                for w in &toks.words {
+                    chars.extend(w.chars());
+                    allwords.insert(w.clone());
+                    cx.note_id(w);
+                }
+                case_ops.push(format!("l : {}", words_field(&toks.words)));
+                impl_ops.push(show_flags(&flags));
+                let base = baseline_lints_spans(cx, text);
+                for (ti, t) in toks.words.iter().enumerate() {
+                    let base_flag = base.iter().any(|(s, sp, _)| *sp && *s == toks.spans[ti]);
+                    if let Some((ai, _)) = imported.iter().find(|(_, w)| w == t) {
+                        rep.count("oracle:token_is_added_word");
+                        if flags[ti] {
+                            let later_variant = imported.iter().any(|(i, w)| i > ai && w != t && real_id(w) == real_id(t));
+                            let earlier_variant = imported.iter().any(|(i, w)| i < ai && w != t && real_id(w) == real_id(t));
+                            let cur = FstDictionary::curated();
+                            let tc: Vec<char> = t.chars().collect();
+                            let other_dialect = cur.get_word_metadata(&tc).map(|m| !m.dialect.is_none_or(|d| d == Dialect::American)).unwrap_or(false);
+                            let class = if t.chars().any(|c| norm_char(c) != c) {
+                                "added-word-reported:apostrophe"
+                            } else if later_variant {
+                                "added-word-reported:case-collision"
+                            } else if earlier_variant {
+                                "added-word-reported:wasm-no-resync"
+                            } else if other_dialect {
+                                "added-word-reported:dialect"
+                            } else {
+                                "added-word-reported"
+                            };
+                            rep.fail(class, format!("{:?} was imported (as word #{ai}) and is reported as misspelt by a later lint (op {oi})", t), inp.clone());
+                        }
+                    } else if imported.iter().any(|(_, w)| real_id(w) == real_id(t)) {
+                        rep.count("oracle:token_is_case_variant_of_added_word(unconstrained)");
+                    } else {
+                        rep.count("oracle:other_token");
+                        if flags[ti] != base_flag {
+                            rep.fail("other-word-changed", format!("report of {:?} (never imported) changed: {} -> {}", t, base_flag, flags[ti]), inp.clone());
+                        }
+                    }
+                }
+                // other lints: those not touching a word whose status may legitimately change
+                let mut a: Vec<((usize, usize), String)> = base.iter().filter(|(_, sp, _)| !*sp).map(|(s, _, m)| (*s, m.clone())).collect();
+                let mut b: Vec<((usize, usize), String)> = ls.iter().filter(|(_, sp, _)| !*sp).map(|(s, _, m)| (*s, m.clone())).collect();
+                a.sort();
+                b.sort();
+                if a != b {
+                    // wasm runs remove_overlaps: a vanished spelling lint can uncover another lint; only a change
+                    // away from every word whose spelling report changed is a failure
+                    let changed_words: Vec<(usize, usize)> = toks.spans.iter().enumerate().filter(|(i, s)| flags[*i] != base.iter().any(|(x, sp, _)| *sp && x == *s)).map(|(_, s)| *s).collect();
+                    let diff: Vec<&((usize, usize), String)> = a.iter().filter(|x| !b.contains(x)).chain(b.iter().filter(|x| !a.contains(x))).collect();
+                    if diff.iter().any(|((x, y), _)| !changed_words.iter().any(|(p, q)| x < q && p < y)) {
+                        rep.fail("other-lints-changed", format!("non-spelling lints differ from the lint without imported words: {:?}", diff), inp.clone());
+                    }
+                } else {
+                    rep.count("oracle:other_lints_equal");
+                }
+            }
+        }
+    }
+    let case = format!("W {} | {} | {}", ctable(&chars), curated_field(&allwords), case_ops.join(" ; "));
+    rep.case(&case, &impl_ops.join(";"));
+    rep.nontrivial(&format!("{:?}", ops));
+    rep.count("wasm:histories");
+}
+
+/// harper-core lints with the curated dictionary, after remove_overlaps (what harper-wasm returns)
+fn baseline_lints_spans(cx: &mut Cx, text: &str) -> Vec<((usize, usize), bool, String)> {
+    let dict = FstDictionary::curated();
+    let doc = Document::new(text, &PlainEnglish, &dict);
+    let mut lints = cx.baseline.lint(&doc);
+    harper_core::remove_overlaps(&mut lints);
+    lints.into_iter().map(|l| ((l.span.start, l.span.end), l.lint_kind.is_spelling(), l.message)).collect()
+}
+
+// ------------------------------------------------------------------------------------------------
+//  generators
+// ------------------------------------------------------------------------------------------------
+const ONSETS: &[&str] = &["z", "bl", "qu", "vl", "kr", "sn", "gl", "thr", "p", "m", "dr", "sk", "fw", "j", "x"];
+const NUCLEI: &[&str] = &["o", "a", "u", "i", "e", "oo", "ai", "y"];
+const CODAS: &[&str] = &["rg", "rf", "x", "mp", "ld", "nk", "zz", "b", "sh", "pt", "le", "ly"];
+
+fn made_up(r: &mut Rng) -> String {
+    let cur = FstDictionary::curated();
+    loop {
+        let mut s = String::new();
+        for _ in 0..r.range(2, 3) {
+            s.push_str(r.s(ONSETS));
+            s.push_str(r.s(NUCLEI));
+        }
+        s.push_str(r.s(CODAS));
+        if !cur.contains_word_str(&s) {
+            return s;
+        }
+    }
+}
+fn capitalize(s: &str) -> String {
+    let mut c = s.chars();
+    match c.next() {
+        Some(f) => f.to_uppercase().collect::<String>() + c.as_str(),
+        None => String::new(),
+    }
+}
+/// exotic but word-like: one Word token for the lexer
+const EXOTIC: &[&str] = &[
+    "žlutý", "naïvish", "Ångbord", "straße", "İstanbulish", "ǅemal", "привет", "Λόγος", "łódźka", "ﬁnchly", "𝒜lpha", "e\u{301}tude", "DŽUNGLA", "ǆungla",
+    "blorf’s", "zorgle's", "krunk‘s", "o＇clocky",
+];
+const CURATED_WORDS: &[&str] = &["hello", "colour", "color", "realise", "Paris", "paris", "monday", "Monday", "theatre", "grey", "kerb"];
+const NON_WORDS: &[&str] = &["", " ", "a b", "x-y", "fl\nurb", "end\r", "\r\nq", "tab\tbed", "100", "a/b", "50%", "\0", "z\u{200b}w", "🙂", "日本語"];
+
+const TEMPLATES: &[&str] = &[
+    "The {0} is here.",
+    "I saw {0} and {1} today.",
+    "{0} {1} {2}",
+    "An {0} was seen near a {1}.",
+    "We {0} it, then {1} again.",
+    "{0}'s idea was good.",
+    "Is {0} better than {1}?",
+    "{0}, {1}, and {2} went home.",
+    "He said “{0}” twice.",
+    "This is {0}.\n\nThat was {1}.",
+    "There are many {0} in the {1} {2}.",
+    "{0}",
+];
+
+fn fill(t: &str, ws: &[String], r: &mut Rng) -> String {
+    let mut s = t.to_string();
+    for i in 0..3 {
+        let w = if ws.is_empty() { String::new() } else { ws[r.below(ws.len())].clone() };
+        s = s.replace(&format!("{{{i}}}"), &w);
+    }
+    s
+}
+
+fn gen_pool(r: &mut Rng) -> Vec<String> {
+    // a small pool of related words: stems, case variants, exotic and curated ones
+    let mut pool = vec![];
+    for _ in 0..r.range(2, 3) {
+        let s = made_up(r);
+        pool.push(s.clone());
+        if r.chance(1, 2) {
+            pool.push(capitalize(&s));
+        }
+        if r.chance(1, 4) {
+            pool.push(s.to_uppercase());
+        }
+    }
+    if r.chance(1, 3) {
+        pool.push(r.s(EXOTIC).to_string());
+    }
+    if r.chance(1, 4) {
+        pool.push(r.s(CURATED_WORDS).to_string());
+    }
+    pool
+}
+
+const URL_POOL: &[&str] = &["f:a/b.txt", "f:a/c.txt", "f:notes.txt", "f:dir with space/x.txt", "f:ünï/çödé.txt", "f:a%b.txt", "f:a/b%c.txt", "f:a/b.txt%", "f:100%/done.txt", "u:Untitled-1"];
+
+fn gen_hist(r: &mut Rng, crash: bool, malformed: bool) -> Hist {
+    let pool = gen_pool(r);
+    let mut urls: Vec<String> = vec![];
+    let nu = r.range(1, 3);
+    while urls.len() < nu {
+        let u = if r.chance(1, 6) && urls.iter().any(|u| u == "f:a/b.txt") { "f:a%b.txt".to_string() } else { r.s(URL_POOL).to_string() };
+        if !urls.contains(&u) {
+            urls.push(u);
+        }
+    }
+    let lang = if r.chance(1, 6) { "markdown" } else { "plaintext" }.to_string();
+    let mut ops = vec![];
+    for ui in 0..urls.len() {
+        if r.chance(2, 3) {
+            ops.push(Op::Lint(ui, fill(r.s(TEMPLATES), &pool, r)));
+        }
+    }
+    let n = r.range(3, 8);
+    for _ in 0..n {
+        match r.below(10) {
+            0..=3 => {
+                let w = if malformed && r.chance(1, 2) { r.s(NON_WORDS).to_string() } else { pool[r.below(pool.len())].clone() };
+                let sc = if r.chance(1, 2) { Scope::User } else { Scope::File(r.below(urls.len())) };
+                if crash && r.chance(1, 3) {
+                    let sys = r.s(&["open", "open", "write", "write", "mkdir", "close", "rename", "sync"]);
+                    let when = r.range(1, 3) as u32;
+                    ops.push(Op::Crash(sc, w, sys.to_string(), when));
+                } else {
+                    ops.push(Op::Add(sc, w));
+                }
+            }
+            4..=7 => {
+                let ui = r.below(urls.len());
+                ops.push(Op::Lint(ui, fill(r.s(TEMPLATES), &pool, r)));
+            }
+            8 => ops.push(Op::Restart),
+            _ => {
+                // check every document
+                let t = fill(r.s(TEMPLATES), &pool, r);
+                for ui in 0..urls.len() {
+                    ops.push(Op::Lint(ui, t.clone()));
+                }
+            }
+        }
+    }
+    // always end by checking every document with every pool word
+    let t = pool.join(" ");
+    for ui in 0..urls.len() {
+        ops.push(Op::Lint(ui, t.clone()));
+    }
+    Hist { lang, urls, ops }
+}
+
+/// metamorphic histories: a rule-rich paragraph in which some words are replaced by made-up ones; checked
+/// before the words are added, after, and after a restart ("all other lints are unchanged")
+fn gen_meta_hist(r: &mut Rng) -> Hist {
+    let pool = gen_pool(r);
+    let para = if r.chance(1, 2) { hv::gen::paragraph(r) } else { format!("{} {}", hv::gen::clean_sentence(r), hv::gen::clean_sentence(r)) };
+    let mut words: Vec<String> = para.split(' ').map(|s| s.to_string()).collect();
+    let mut used = vec![];
+    for _ in 0..r.range(1, 3) {
+        if words.is_empty() {
+            break;
+        }
+        let i = r.below(words.len());
+        let w = pool[r.below(pool.len())].clone();
+        // keep the punctuation that was glued to the replaced word
+        let tail: String = words[i].chars().rev().take_while(|c| !c.is_alphanumeric()).collect::<Vec<_>>().into_iter().rev().collect();
+        words[i] = format!("{w}{tail}");
+        used.push(w);
+    }
+    let text = words.join(" ");
+    let urls = vec![r.s(URL_POOL).to_string()];
+    let mut ops = vec![Op::Lint(0, text.clone())];
+    for w in &used {
+        let sc = if r.chance(1, 2) { Scope::User } else { Scope::File(0) };
+        ops.push(Op::Add(sc, w.clone()));
+    }
+    ops.push(Op::Lint(0, text.clone()));
+    ops.push(Op::Restart);
+    ops.push(Op::Lint(0, text));
+    Hist { lang: if r.chance(1, 5) { "markdown" } else { "plaintext" }.to_string(), urls, ops }
+}
+
+fn gen_wasm(r: &mut Rng, malformed: bool) -> Vec<WOp> {
+    let pool = gen_pool(r);
+    let mut ops = vec![WOp::Lint(fill(r.s(TEMPLATES), &pool, r))];
+    for _ in 0..r.range(3, 8) {
+        match r.below(8) {
+            0..=2 => {
+                let mut ws = vec![];
+                for _ in 0..r.range(1, 3) {
+                    ws.push(if malformed && r.chance(1, 3) { r.s(NON_WORDS).to_string() } else { pool[r.below(pool.len())].clone() });
+                }
+                ops.push(WOp::Import(ws));
+            }
+            3..=5 => ops.push(WOp::Lint(fill(r.s(TEMPLATES), &pool, r))),
+            _ => ops.push(WOp::Export),
+        }
+    }
+    ops.push(WOp::Lint(pool.join(" ")));
+    ops.push(WOp::Export);
+    ops
+}
+
+fn gen_content(r: &mut Rng) -> String {
+    let pieces: &[&str] = &["zorgle", "Zorgle", "blorf", "\n", "\n", "\r\n", "\r", " ", "x", "é", "İ", "ß", "𝒜", "’s", "'s", "\n\n", "\t", "%", "ǅ", "ﬁ", "a b"];
+    let mut s = String::new();
+    for _ in 0..r.range(0, 10) {
+        s.push_str(r.s(pieces));
+    }
+    s
+}
+fn gen_path(r: &mut Rng) -> String {
+    let segs: &[&str] = &["a", "b", "a%b", "%", "a%", "%b", ".", "..", "", "x y", "ü", "c.txt", "%25", "a%2Fb", "日本"];
+    let mut s = String::new();
+    for _ in 0..r.range(1, 5) {
+        s.push('/');
+        s.push_str(r.s(segs));
+    }
+    if r.chance(1, 8) {
+        s.push('/');
+    }
+    s
+}
+
+fn run_input(cx: &mut Cx, rep: &mut Report, v: &Value, origin: &str) {
+    match v["kind"].as_str().unwrap_or("") {
+        "load" => run_load(cx, rep, v["content"].as_str().unwrap_or(""), origin),
+        "name" => run_name(cx, rep, v["path"].as_str().unwrap_or("/"), origin),
+        "names" => {
+            if let Some(a) = v["paths"].as_array() {
+                for p in a {
+                    run_name(cx, rep, p.as_str().unwrap_or("/"), origin);
+                }
+            }
+        }
+        "ls" => {
+            if let Some(h) = hist_from(v) {
+                run_hist(cx, rep, &h, origin)
+            }
+        }
+        "wasm" => {
+            if let Some(ops) = wasm_from(v) {
+                run_wasm(cx, rep, &ops, origin)
+            }
+        }
+        _ => rep.count("input:unknown_kind"),
+    }
+}
 
 fn main() {
     let argv: Vec<String> = std::env::args().collect();
-    let dir = argv.get(1).cloned().unwrap_or("/tmp/c07probe".into());
-    let _ = std::fs::remove_dir_all(&dir);
-    std::fs::create_dir_all(format!("{dir}/docs/a")).unwrap();
-    let rt = runtime();
-    let _g = rt.enter();
-    let st = settings(&format!("{dir}/cfg/user.txt"), &format!("{dir}/fd"), &format!("{dir}/stats.txt"), json!({}));
-    let mut s = Session::new(st.clone());
-    let doc = format!("{dir}/docs/a/b.txt");
-    let uri = format!("file://{doc}");
-    let text = "Here zorgle and Zorgle and ZORGLE and blorf’s and colour and flurb.";
-    std::fs::write(&doc, text).unwrap();
-    s.did_open(&uri, "plaintext", text);
-    println!("open: {:?}", misspelt_words(s.last_published(&uri).unwrap(), text));
-    for w in ["zorgle", "Zorgle", "blorf’s", "colour", "fl\nurb"] {
-        s.command("HarperAddToUserDict", vec![json!(w), json!(uri)]);
-        println!("add {w:?}: {:?}", misspelt_words(s.last_published(&uri).unwrap(), text));
-        println!("  file: {:?}", std::fs::read_to_string(format!("{dir}/cfg/user.txt")).unwrap());
+    if argv.get(1).map(|s| s == "child-add").unwrap_or(false) {
+        child_add(&argv[2..]);
+        return;
     }
-    // F20
-    let doc2 = format!("{dir}/docs/a%b.txt");
-    std::fs::write(&doc2, "Here quxly is.").unwrap();
-    let uri2 = format!("file://{dir}/docs/a%25b.txt");
-    s.did_open(&uri2, "plaintext", "Here quxly is.");
-    println!("open2: {:?}", misspelt_words(s.last_published(&uri2).unwrap(), "Here quxly is."));
-    std::fs::write(&doc, "Here quxly is.").unwrap();
-    s.command("HarperAddToFileDict", vec![json!("quxly"), json!(uri)]);
-    println!("after add to file dict of {uri}: {:?}", s.last_published(&uri).map(|d| misspelt_words(d, "Here quxly is.")));
-    s.did_change(&uri2, "Here quxly is. ");
-    println!("other file: {:?}", misspelt_words(s.last_published(&uri2).unwrap(), "Here quxly is. "));
-    for e in std::fs::read_dir(format!("{dir}/fd")).unwrap() {
-        println!("fd entry: {:?}", e.unwrap().file_name());
+    let (args, corpus) = hv::cli();
+    let mut rep = Report::new(&args.out);
+    rep.rule = "histories of add-to-user-dictionary / add-to-file-dictionary / check-a-document / restart on the real harper-ls Backend (1-3 documents incl. percent-named and untitled ones; made-up stems with case variants, non-ASCII and apostrophe words, curated words of another dialect; a malformed stream of non-words incl. LF/CR); real crash points (the add runs in a child killed by strace on entering the N-th openat/write/mkdir); load_dict on arbitrary file contents; file_dict_name on generated paths; harper_wasm::Linter import_words/lint/export_words histories. non-trivial = distinct history / file content / path".into();
+    let mut cx = Cx::new(&args);
+    for v in &corpus {
+        run_input(&mut cx, &mut rep, v, "corpus");
     }
-    // untitled
-    let u3 = "untitled:Untitled-1";
-    s.did_open(u3, "plaintext", "Here vlimp is.");
-    println!("untitled open: {:?}", misspelt_words(s.last_published(u3).unwrap(), "Here vlimp is."));
-    s.command("HarperAddToUserDict", vec![json!("vlimp"), json!(u3)]);
-    println!("untitled after add: {:?}", misspelt_words(s.last_published(u3).unwrap(), "Here vlimp is."));
-    s.request("shutdown", Value::Null);
-    println!("stats exists: {}", std::path::Path::new(&format!("{dir}/stats.txt")).exists());
-    println!("cfg reqs {} other {:?}", s.config_requests, s.other_messages);
+    if args.replay.is_none() {
+        let mut r = Rng::new(args.seed);
+        for _ in 0..args.scale(300, 3000) {
+            let c = gen_content(&mut r);
+            run_load(&mut cx, &mut rep, &c, "gen");
+        }
+        for _ in 0..args.scale(300, 3000) {
+            let p = gen_path(&mut r);
+            run_name(&mut cx, &mut rep, &p, "gen");
+        }
+        for i in 0..args.scale(60, 600) {
+            let h = gen_hist(&mut r, false, i % 5 == 4);
+            run_hist(&mut cx, &mut rep, &h, "gen");
+        }
+        for _ in 0..args.scale(80, 1500) {
+            let h = gen_meta_hist(&mut r);
+            run_hist(&mut cx, &mut rep, &h, "gen-meta");
+        }
+        for i in 0..args.scale(12, 80) {
+            let h = gen_hist(&mut r, true, i % 7 == 6);
+            run_hist(&mut cx, &mut rep, &h, "gen-crash");
+        }
+        for i in 0..args.scale(60, 600) {
+            let ops = gen_wasm(&mut r, i % 5 == 4);
+            run_wasm(&mut cx, &mut rep, &ops, "gen");
+        }
+    }
+    // ---- hypothesis monitors ----
+    // char::is_lowercase(c) -> to_lowercase(c) = [c]   (the shortcut in CharStringExt::to_lower changes nothing)
+    let mut bad = 0u64;
+    for cp in 0..=0x10FFFFu32 {
+        if let Some(c) = char::from_u32(cp) {
+            if c.is_lowercase() && c.to_lowercase().collect::<Vec<_>>() != vec![c] {
+                bad += 1;
+            }
+        }
+    }
+    rep.monitor("unicode:is_lowercase_but_to_lowercase_differs", bad);
+    rep.monitor("word_id:model_id_and_real_id_disagree", cx.id_mismatch);
+    rep.monitor("word_id:distinct_ids_seen", cx.ids.len() as u64);
+    // a byte prefix of a UTF-8 text is valid exactly at character boundaries (the Clean/Torn abstraction)
+    let mut torn_bad = 0u64;
+    for s in ["zorgle\nžlutý\n𝒜lpha\n", "é", "日本語\n"] {
+        let b = s.as_bytes();
+        for i in 0..=b.len() {
+            if std::str::from_utf8(&b[..i]).is_ok() != s.is_char_boundary(i) {
+                torn_bad += 1;
+            }
+        }
+    }
+    rep.monitor("utf8:prefix_validity_differs_from_char_boundary", torn_bad);
+    for (k, v) in &cx.crash_classes {
+        rep.monitor(&format!("crash_state:{k}"), *v);
+    }
+    if bad > 0 || cx.id_mismatch > 0 || torn_bad > 0 {
+        rep.fail("hypothesis", format!("a modelling hypothesis is violated: lowercase law {bad}, word id {}, utf8 {torn_bad}", cx.id_mismatch), json!({"kind": "monitor"}));
+    }
+    let _ = std::fs::remove_dir_all(&cx.base);
+    let _ = cx.thorough;
+    rep.finish();
 }
